@@ -182,6 +182,8 @@ def load_known(prop):
 def canon_hash(x):
     return hashlib.sha256(json.dumps(x, sort_keys=True, default=repr, ensure_ascii=True).encode()).hexdigest()
 
+# evidence of runs against /repo itself goes to evidence/; bin/seedrun (a deliberately broken /repo) redirects it
+EVIDENCE_DIR = os.environ.get("VERIF_EVIDENCE_DIR") or os.path.join(VERIF, "evidence")
 class Ctx:
     def __init__(self, prop, tier, seed):
         self.prop, self.tier, self.seed = prop, tier, seed
@@ -237,7 +239,7 @@ class Ctx:
 
     # -- verdict
     def finish(self):
-        os.makedirs(os.path.join(VERIF, "evidence"), exist_ok=True)
+        os.makedirs(EVIDENCE_DIR, exist_ok=True)
         viol = []
         rdir = os.path.join(VERIF, "replays", self.prop); 
         def write_replay(obj):
@@ -283,7 +285,7 @@ class Ctx:
         )
         ev = dict(property_id=self.prop, tier=self.tier, seed=self.seed, level="proof", coverage=cov,
                   assumptions=self.trusted, wall_s=round(time.time() - self.t0, 2), violations=len(viol))
-        json.dump(ev, open(os.path.join(VERIF, "evidence", self.prop + ".json"), "w"), indent=1, default=repr, ensure_ascii=True)
+        json.dump(ev, open(os.path.join(EVIDENCE_DIR, self.prop + ".json"), "w"), indent=1, default=repr, ensure_ascii=True)
         for v in viol: print(v)
         for c in coq_failed: print("CHECK-BROKEN: " + c[-1500:])
         print("%s %s: obligations %d/%d, %d evaluations (%d distinct non-trivial), %d in-domain disagreements, %d drift, %d new failing inputs, %.1fs"
